@@ -993,6 +993,27 @@ func (e *Env) applyContract(call *ast.CallExpr, st *State, cl callee, ct *Contra
 		}
 		b.vals[name] = TV{v, p.Type()}
 	}
+	// the contract may still use the baseline names of a renamed receiver / parameter
+	if fi != nil {
+		if base := loadedBaseline[fi.Key]; len(base) > 0 {
+			cur, _ := funcVars(fi)
+			for _, bv := range base {
+				if bv.Kind != "param" {
+					continue
+				}
+				if _, has := b.vals[bv.Name]; has {
+					continue
+				}
+				for _, cv := range cur {
+					if cv.Kind == "param" && cv.Ord == bv.Ord && cv.Type == bv.Type {
+						if v, ok := b.vals[cv.Name]; ok {
+							b.vals[bv.Name] = v
+						}
+					}
+				}
+			}
+		}
+	}
 	se := &SpecEnv{C: c, Pkg: specPkg, B: b, Cur: st, Old: st}
 	// preconditions
 	ord := c.callOrdinal(call, cl)
